@@ -42,7 +42,7 @@ def run(ctx):
     else:
         s = ctx.seed
         # (mode, hubs, batch, faults, timeouts)
-        cases = [("lq", 5, 0, 0, 0), ("hq", 4, 2, 2, 0), ("hq", 5, 3, 3, 1), ("hq", 2, 3, 1, 0, 10, 300)] if quick else \
+        cases = [("lq", 5, 0, 0, 0), ("hq", 4, 2, 2, 0), ("hq", 5, 3, 3, 1), ("hq", 2, 3, 1, 0, 10, 300), ("hq", 2, 60, 1, 0, 10, 300)] if quick else \
                 [("lq", 5, 0, 0, 0), ("lq", 9, 0, 0, 0), ("hq", 4, 2, 2, 0), ("hq", 5, 3, 3, 1), ("hq", 6, 1, 4, 1),
                  ("hq", 7, 4, 6, 2), ("hq", 3, 5, 1, 0), ("hq", 8, 2, 8, 2), ("hq", 6, 3, 0, 3), ("hq", 2, 3, 1, 0, 10, 300), ("hq", 5, 2, 2, 0, 12, 400)]
         procs = [(c, pipeline(ctx, "-".join(str(x) for x in c), "c15", list(c))) for c in cases]
